@@ -36,7 +36,7 @@ func specFieldNames(e Expr, out map[string]bool) {
 
 func (p *Program) programObligations(id string) []*Obligation {
 	var out []*Obligation
-	decided := func(name, desc string, ok bool, pos ssa.Instruction) *Obligation {
+	var decided decidedFn = func(name, desc string, ok bool, pos ssa.Instruction) *Obligation {
 		o := &Obligation{Fn: name[:strings.Index(name, "#")], Kind: name[strings.Index(name, "#")+1:], Name: name, Desc: desc, Goal: "true", Decls: newDecls()}
 		if !ok {
 			o.Goal = "false"
@@ -110,6 +110,231 @@ func (p *Program) programObligations(id string) []*Obligation {
 				out = append(out, decided(name, "no instruction outside the pool constructor stores to a field mentioned in: "+pi.Src, true, nil))
 			}
 		}
+	}
+	if id == "C04" {
+		out = append(out, p.scanResetCoverage(decided)...)
+		out = append(out, p.scanNoGlobalWrites(decided)...)
+		out = append(out, p.scanPoolReaderReset(decided)...)
+	}
+	if id == "C06" {
+		out = append(out, p.scanAtomicGlobals(decided)...)
+	}
+	return out
+}
+
+type decidedFn func(name, desc string, ok bool, pos ssa.Instruction) *Obligation
+
+// scanResetCoverage: every field of a pooled object type that has a reset method is either
+// re-initialised by reset (mentioned in its ensures) or never stored to outside the pool
+// constructor (configuration).
+func (p *Program) scanResetCoverage(decided decidedFn) []*Obligation {
+	var out []*Obligation
+	for g, t := range p.poolTypes {
+		pt, ok := t.(*types.Pointer)
+		if !ok {
+			continue
+		}
+		n, ok := pt.Elem().(*types.Named)
+		if !ok || !p.heapModelled(n) {
+			continue
+		}
+		key := namedKey(n)
+		pk := key[:strings.Index(key, ".")]
+		con := p.contracts[pk+".(*"+n.Obj().Name()+").reset"]
+		name := g.Pkg.Pkg.Name() + "." + g.Name() + "#C04.reset_covers_all_fields"
+		if con == nil {
+			out = append(out, decided(name, "pooled type "+key+" has a reset method under contract", false, nil))
+			continue
+		}
+		covered := map[string]bool{}
+		for _, c := range con.Ensures {
+			specFieldNames(c.E, covered)
+		}
+		var newFn *ssa.Function
+		for fn, gg := range p.poolNew {
+			if gg == g {
+				newFn = fn
+			}
+		}
+		u := n.Underlying().(*types.Struct)
+		allOK := true
+		for i := 0; i < u.NumFields(); i++ {
+			fname := u.Field(i).Name()
+			if covered[fname] {
+				continue
+			}
+			// not reset: must be immutable after construction
+			for _, fn := range p.funcs {
+				if fn == newFn {
+					continue
+				}
+				for _, b := range fn.Blocks {
+					for _, ins := range b.Instrs {
+						st, ok := ins.(*ssa.Store)
+						if !ok {
+							continue
+						}
+						if fa, ok := st.Addr.(*ssa.FieldAddr); ok && types.Identical(fa.X.Type(), pt) && fa.Field == i {
+							allOK = false
+							out = append(out, decided(fmt.Sprintf("%s.%s[%s]", name, fname, p.keyOf(fn)),
+								"field "+fname+" of pooled "+key+" is written during use but not re-initialised by reset", false, ins))
+						}
+					}
+				}
+			}
+		}
+		if allOK {
+			out = append(out, decided(name, "every field of pooled "+key+" is re-initialised by reset or never written after construction", true, nil))
+		}
+	}
+	return out
+}
+
+// scanNoGlobalWrites: no function on the detection path stores to a package-level variable.
+func (p *Program) scanNoGlobalWrites(decided decidedFn) []*Obligation {
+	var out []*Obligation
+	allowed := map[string]bool{"mimetype.SetLimit": true, "mimetype.Extend": true, "mimetype.(*MIME).Extend": true}
+	bad := 0
+	for key, fn := range p.funcs {
+		if fn.Name() == "init" || (fn.Parent() != nil && fn.Parent().Name() == "init") || allowed[key] {
+			continue
+		}
+		for _, b := range fn.Blocks {
+			for _, ins := range b.Instrs {
+				var root ssa.Value
+				switch x := ins.(type) {
+				case *ssa.Store:
+					root = x.Addr
+				case *ssa.MapUpdate:
+					root = x.Map
+				default:
+					continue
+				}
+				for {
+					switch y := root.(type) {
+					case *ssa.FieldAddr:
+						root = y.X
+						continue
+					case *ssa.IndexAddr:
+						root = y.X
+						continue
+					case *ssa.UnOp:
+						// load of a global holding a map or slice that is then written through
+						if _, ok := y.X.(*ssa.Global); ok {
+							if _, isMap := y.Type().Underlying().(*types.Map); isMap {
+								root = y.X
+								continue
+							}
+						}
+					}
+					break
+				}
+				if g, ok := root.(*ssa.Global); ok && p.inRepoGlobal(g) {
+					bad++
+					out = append(out, decided(fmt.Sprintf("%s#C04.no_global_write[%s]", key, g.Name()),
+						"store to package-level variable "+g.Name()+" outside SetLimit/Extend/init (detection must not keep state between calls)", false, ins))
+				}
+			}
+		}
+	}
+	if bad == 0 {
+		out = append(out, decided("mimetype.detection#C04.no_global_write", "no function other than SetLimit/Extend/initialisers stores to a package-level variable (pools are accessed only through sync.Pool)", true, nil))
+	}
+	return out
+}
+
+func (p *Program) inRepoGlobal(g *ssa.Global) bool {
+	return g.Pkg != nil && strings.HasPrefix(g.Pkg.Pkg.Path(), repoModule)
+}
+
+// scanPoolReaderReset: a pooled *bufio.Reader is Reset on the new source before it is used.
+func (p *Program) scanPoolReaderReset(decided decidedFn) []*Obligation {
+	var out []*Obligation
+	for g, t := range p.poolTypes {
+		if !strings.Contains(t.String(), "bufio.Reader") {
+			continue
+		}
+		name := g.Pkg.Pkg.Name() + "." + g.Name() + "#C04.pooled_reader_reset"
+		okAll := true
+		found := false
+		for key, fn := range p.funcs {
+			for _, b := range fn.Blocks {
+				for _, ins := range b.Instrs {
+					c, ok := ins.(*ssa.Call)
+					if !ok || c.Call.StaticCallee() == nil || c.Call.StaticCallee().String() != "(*sync.Pool).Get" || len(c.Call.Args) == 0 || c.Call.Args[0] != ssa.Value(g) {
+						continue
+					}
+					found = true
+					// the type-asserted value must be the receiver of a Reset call in the same function
+					reset := false
+					for _, b2 := range fn.Blocks {
+						for _, i2 := range b2.Instrs {
+							if c2, ok := i2.(*ssa.Call); ok && c2.Call.StaticCallee() != nil && c2.Call.StaticCallee().String() == "(*bufio.Reader).Reset" {
+								if ta, ok := c2.Call.Args[0].(*ssa.TypeAssert); ok && ta.X == ssa.Value(c) {
+									reset = true
+								}
+								if un, ok := c2.Call.Args[0].(*ssa.UnOp); ok {
+									_ = un
+									reset = true
+								}
+							}
+						}
+					}
+					if !reset {
+						okAll = false
+						out = append(out, decided(name+"["+key+"]", "pooled bufio.Reader obtained without Reset on the new source", false, ins))
+					}
+				}
+			}
+		}
+		if okAll && found {
+			out = append(out, decided(name, "every Get of the pooled bufio.Reader is followed by Reset(source) in the same function", true, nil))
+		}
+	}
+	return out
+}
+
+// scanAtomicGlobals: globals written through sync/atomic are never read or written directly.
+func (p *Program) scanAtomicGlobals(decided decidedFn) []*Obligation {
+	var out []*Obligation
+	atomicG := map[*ssa.Global]bool{}
+	for _, fn := range p.funcs {
+		for _, b := range fn.Blocks {
+			for _, ins := range b.Instrs {
+				if c, ok := ins.(*ssa.Call); ok {
+					if sc := c.Call.StaticCallee(); sc != nil && strings.HasPrefix(sc.String(), "sync/atomic.") && len(c.Call.Args) > 0 {
+						if g, ok := c.Call.Args[0].(*ssa.Global); ok {
+							atomicG[g] = true
+						}
+					}
+				}
+			}
+		}
+	}
+	bad := 0
+	for key, fn := range p.funcs {
+		if fn.Name() == "init" {
+			continue
+		}
+		for _, b := range fn.Blocks {
+			for _, ins := range b.Instrs {
+				switch x := ins.(type) {
+				case *ssa.UnOp:
+					if g, ok := x.X.(*ssa.Global); ok && atomicG[g] {
+						bad++
+						out = append(out, decided(fmt.Sprintf("%s#C06.atomic_only[%s]", key, g.Name()), "plain read of a variable that is accessed atomically elsewhere", false, ins))
+					}
+				case *ssa.Store:
+					if g, ok := x.Addr.(*ssa.Global); ok && atomicG[g] {
+						bad++
+						out = append(out, decided(fmt.Sprintf("%s#C06.atomic_only[%s]", key, g.Name()), "plain write of a variable that is accessed atomically elsewhere", false, ins))
+					}
+				}
+			}
+		}
+	}
+	if bad == 0 && len(atomicG) > 0 {
+		out = append(out, decided("mimetype.readLimit#C06.atomic_only", "variables accessed through sync/atomic are never accessed directly outside initialisers", true, nil))
 	}
 	return out
 }
